@@ -113,8 +113,17 @@ def parseSfxTok (t : String) : Option Sfx :=
   | 's' :: ds => some (.slop ds)
   | _ => none
 
+/-- `n` further set elements `<k>,<hex>` -/
+def parseElemToks : Nat → List String → Option (List (Nat × Str) × List String)
+  | 0, toks => some ([], toks)
+  | n + 1, k :: h :: rest =>
+    match k.toNat?, textOfHex h, parseElemToks n rest with
+    | some k, some w, some (more, rest') => some ((k, w) :: more, rest')
+    | _, _, _ => none
+  | _ + 1, _ => none
+
 mutual
-/-- operand tokens: `w,<hex>` | `p,<hex>` | `fw,<hex>,<hex>` | `fp,<hex>,<hex>` | `ps,<hex>,<sfx>` | `fps,<hex>,<hex>,<sfx>` (sfx `-`|`*`|`s<digits>`) | `r,<lo>,<hi>,<hex>,<hex>` | `fr,<hex>,<lo>,<hi>,<hex>,<hex>` | `n,<k>,Opd` | `g,<lead>,<occ>,<k>,<n>,Opd, n × (<op>,<occ>,<sp1>,<sp2>,Opd)` -/
+/-- operand tokens: `w,<hex>` | `p,<hex>` | `fw,<hex>,<hex>` | `fp,<hex>,<hex>` | `ps,<hex>,<sfx>` | `fps,<hex>,<hex>,<sfx>` (sfx `-`|`*`|`s<digits>`) | `r,<lo>,<hi>,<hex>,<hex>` | `fr,<hex>,<lo>,<hi>,<hex>,<hex>` | `s,<k0>,<k1>,<hex>,<n>, n×(<k>,<hex>)` | `fs,<hex>,<k0>,<k1>,<hex>,<n>,…` | `n,<k>,Opd` | `g,<lead>,<occ>,<k>,<n>,Opd, n × (<op>,<occ>,<sp1>,<sp2>,Opd)` -/
 def parseOpdToks : Nat → List String → Option (Opd × List String)
   | 0, _ => none
   | fuel + 1, toks =>
@@ -145,6 +154,20 @@ def parseOpdToks : Nat → List String → Option (Opd × List String)
       match textOfHex hf, textOfHex h1, textOfHex h2 with
       | some f, some w1, some w2 => some (fieldRangeOpd f (lo == "1") (hi == "1") w1 w2, rest)
       | _, _, _ => none
+    | "s" :: k0 :: k1 :: h :: n :: rest =>
+      match k0.toNat?, k1.toNat?, textOfHex h, n.toNat? with
+      | some k0, some k1, some w, some n =>
+        match parseElemToks n rest with
+        | some (more, rest') => some (setOpd k0 k1 w more, rest')
+        | none => none
+      | _, _, _, _ => none
+    | "fs" :: hf :: k0 :: k1 :: h :: n :: rest =>
+      match textOfHex hf, k0.toNat?, k1.toNat?, textOfHex h, n.toNat? with
+      | some f, some k0, some k1, some w, some n =>
+        match parseElemToks n rest with
+        | some (more, rest') => some (fieldSetOpd f k0 k1 w more, rest')
+        | none => none
+      | _, _, _, _, _ => none
     | "n" :: k :: rest =>
       match k.toNat?, parseOpdToks fuel rest with
       | some k, some (o, rest1) => some (notOpd k o, rest1)
